@@ -130,6 +130,12 @@ def check_qr_selector(repo, chk, tier):
                 return PyFunc(qr)
             if attr in ("rows", "cols"):
                 return sp.Integer(getattr(obj.m, attr))
+            if attr == "shape":
+                return (sp.Integer(obj.m.rows), sp.Integer(obj.m.cols))
+            if attr == "T":
+                return _Mat(obj.m.T)
+            if attr == "rank":
+                return PyFunc(lambda: sp.Integer(obj.m.rank()))
         if is_number_like(obj) and attr == "doit":
             return PyFunc(lambda: obj)
         return attribute(tr, obj, attr, n)
